@@ -28,9 +28,22 @@ func Tick() {
 		return
 	}
 	if t := atomic.AddInt64(&ticks, 1); t > b {
-		atomic.StoreInt64(&budget, 0)
+		if atomic.LoadInt32(&shared) == 0 {
+			atomic.StoreInt64(&budget, 0)
+		}
 		panic(BudgetExceeded{Ticks: t})
 	}
+}
+
+var shared int32
+
+// ArmShared arms one budget for several goroutines: once it is exceeded EVERY goroutine panics at its next tick
+// (the budget stays armed), so that none of them is left spinning. Each goroutine must recover BudgetExceeded.
+// Disarm with Arm(0).
+func ArmShared(b int64) {
+	atomic.StoreInt32(&shared, 1)
+	atomic.StoreInt64(&ticks, 0)
+	atomic.StoreInt64(&budget, b)
 }
 
 // Arm resets the counter and sets a budget (0 = disarmed: ticks are neither counted nor limited).
@@ -38,6 +51,7 @@ func Arm(b int64) {
 	if b != 0 {
 		atomic.StoreInt64(&ticks, 0)
 	}
+	atomic.StoreInt32(&shared, 0)
 	atomic.StoreInt64(&budget, b)
 }
 
